@@ -51,6 +51,10 @@ func (c *validateAwarePostProcessors) PostProcessProperties(properties []*compon
 				p = p.Elem()
 			}
 			if p.Kind() == reflect.Struct {
+				//an optional struct pointer to which nothing was bound has no value to validate (the validator rejects a nil pointer as an invalid argument)
+				if prop.Value.Kind() == reflect.Pointer && prop.Value.IsNil() {
+					continue
+				}
 				err := c.v.Struct(prop.Value.Interface())
 				if err != nil {
 					return nil, errors.Wrapf(err, "validate on struct field '%s' error", prop)
